@@ -131,10 +131,29 @@ def worker(case: Dict[str, Any]) -> CaseResult:
     if uploads:
         feats.add("scalar.upload")
     scalars = sorted(n for n, t in schema_ref.type_map.items() if isinstance(t, GraphQLScalarType) and n not in oracles.BUILTIN and n != "Upload")
+    if scalars and not case.get("_sdl") and case["idx"] % 2 == 1:
+        # one more root field taking every custom scalar as a required argument, and an operation passing them all as variables: every configured
+        # scalar then occurs among one method's variables, whatever the random operations happened to use
+        import re as _re
+
+        from graphql import build_schema as _bs
+        qname = schema_ref.query_type.name
+        args_ = ", ".join("a%d: %s!" % (k, n) for k, n in enumerate(scalars))
+        sdl_new = _re.sub(r"(type %s[^{]*\{\n)" % _re.escape(qname), lambda m_: m_.group(1) + "  vfTakeScalars(%s): [%s]\n" % (args_, scalars[0]), sdl, count=1)
+        if sdl_new != sdl:
+            try:
+                schema_ref = _bs(sdl_new)
+                sdl = sdl_new
+                ops = list(ops) + ["query VfTakeScalars(%s) { vfTakeScalars(%s) }" % (", ".join("$a%d: %s!" % (k, n) for k, n in enumerate(scalars)),
+                                                                                          ", ".join("a%d: $a%d" % (k, k) for k in range(len(scalars))))]
+                names = list(names) + ["VfTakeScalars"]
+                feats.add("scalar.all_as_variables_probe")
+            except Exception:  # noqa: BLE001
+                pass
     if not scalars:
         return CaseResult("inconclusive", note="schema without custom scalars", stats={"no_custom_scalars": 1})
     variant_of = {n: VARIANTS[(case["idx"] + i) % len(VARIANTS)] for i, n in enumerate(scalars)}
-    if len(scalars) >= 2 and case["idx"] % 7 == 3:
+    if len(scalars) >= 2 and case["idx"] % 7 in (3, 5):
         # several GraphQL scalars sharing one Python type, each with its own functions
         variant_of = {n: "serialize_str" for n in scalars}
     if uploads and case["idx"] % 8 == 2:
@@ -327,7 +346,8 @@ def worker(case: Dict[str, Any]) -> CaseResult:
                 if len(server.captured) != n0 + 1:
                     violations.append(Violation(PROP, "request-sent", "%s: call did not reach the transport: %s %s" % (
                         op_name, status, ("%s: %s" % (type(value).__name__, str(value)[:300])) if status == "exc" else ""), fl, replay_case,
-                        mech=top_level_scalar_dirty or "c07:request-sent"))
+                        # only a failure inside a serialize function that was handed None/UNSET belongs to the listed mechanism; a NameError or ImportError never does
+                        mech=(top_level_scalar_dirty if (status == "exc" and type(value).__name__ in ("TypeError", "ValueError", "PydanticSerializationError")) else None) or "c07:request-sent"))
                     continue
                 count("serialize_calls_expected", len(ser_want))
                 if ser_calls != ser_want:
